@@ -65,7 +65,7 @@ def run(ck):
             jobs.append(lambda ns=ns, num=num, glen=glen, k=k: eu.gen_scripts(ck, ns, "c08g", OPS, MODES, glen, num,
                                                                               seed=ck.seed * 100 + ns * 10 + k, witness="H6"))
     binp = ck.gobuild("engine")
-    for r in eu.parallel(ck, jobs, workers=4 if not thorough else 5):
+    for r in eu.parallel(ck, jobs, workers=4 if not thorough else 3):
         if isinstance(r, dict):
             scripts.append(r)
         elif isinstance(r, tuple):
